@@ -9,6 +9,7 @@ import (
 	"math/big"
 	"strings"
 	"time"
+	_ "time/tzdata" // the zone family below must not depend on the host's zoneinfo
 
 	"github.com/bitcoin-sv/block-headers-service/domains"
 	"github.com/bitcoin-sv/block-headers-service/internal/chaincfg/chainhash"
@@ -124,6 +125,24 @@ func runC03(c *Ctx) error {
 		c.Count("hdr:" + class)
 	}
 	doHist := func(h *History, tag string) error {
+		// x=zone:<process zone>:<zone of the restart>  (the model has no zone: a header time is an instant)
+		var beforeReopen func()
+		for _, x := range h.X {
+			if p := strings.Split(x, ":"); len(p) == 3 && p[0] == "zone" {
+				loc, err := time.LoadLocation(p[1])
+				if err != nil {
+					return err
+				}
+				rloc, err := time.LoadLocation(p[2])
+				if err != nil {
+					return err
+				}
+				saved := time.Local
+				time.Local = loc
+				beforeReopen = func() { time.Local = rloc }
+				defer func() { time.Local = saved }()
+			}
+		}
 		m, err := Materialize(h)
 		if err != nil {
 			return err
@@ -149,6 +168,9 @@ func runC03(c *Ctx) error {
 		repo := rowsViaRepo(s, m, last)
 		web := rowsViaHTTP(s, m, last)
 		// restart: close and re-open the same database file (database.Init runs again)
+		if beforeReopen != nil {
+			beforeReopen()
+		}
 		ns, err := s.Reopen()
 		if err != nil {
 			return fmt.Errorf("reopen: %w", err)
@@ -210,6 +232,36 @@ func runC03(c *Ctx) error {
 		o := GenOpts{N: 2 + c.Rng.Intn(14), PUnknown: 0.1, PLate: 0.1, PDup: 0.1, PForbidden: 0.1, ZeroWork: true, Deep: i%2 == 0, Extreme: i%3 != 1, Lattice: i%3 == 1, ShareMerkle: i%4 == 2}
 		if err := doHist(GenHistory(c.Rng, o), "random-extreme"); err != nil {
 			return err
+		}
+	}
+	// the service's time zone: a header time is an instant (32-bit seconds), not a wall-clock reading.  The process
+	// zone (time.Local) is set to zones with daylight saving time, the header times step in half hours through the
+	// night the clocks go back (one hour of wall-clock readings happens twice) and forward (one hour does not exist),
+	// and the restart happens under ANOTHER zone.  Same case lines as ever: the model has no zone.
+	{
+		type zc struct {
+			zone, restartZone string
+			base              uint32
+		}
+		zcs := []zc{
+			{"Europe/Warsaw", "Europe/Warsaw", 1635634800},      // 2021-10-30 23:00Z .. clocks back at 01:00Z
+			{"Europe/Warsaw", "America/New_York", 1616886000},   // 2021-03-27 23:00Z .. clocks forward at 01:00Z
+			{"America/New_York", "Asia/Kolkata", 1636257600},    // 2021-11-07 04:00Z .. clocks back at 06:00Z
+			{"Australia/Lord_Howe", "UTC", 1617454800},          // half-hour shift, back at 2021-04-03 15:00Z
+			{"Asia/Kolkata", "Pacific/Kiritimati", 1635634800},  // no DST, +05:30 -> +14:00
+			{"UTC", "Europe/Warsaw", 1635634800},
+		}
+		for _, z := range zcs {
+			h := &History{X: []string{"zone:" + z.zone + ":" + z.restartZone}}
+			prev := genesisID
+			for i := 0; i < 14; i++ {
+				id := i + 2
+				h.Subs = append(h.Subs, Sub{ID: id, Prev: prev, Bits: bitsW2, Ver: 1, Merkle: id + 100, TS: z.base + uint32(i)*1800, Nonce: uint32(id)})
+				prev = id
+			}
+			if err := doHist(h, "zone:"+z.zone+">"+z.restartZone); err != nil {
+				return err
+			}
 		}
 	}
 	// raw header hashing over the full field ranges
